@@ -475,7 +475,7 @@ def c14n(data) -> bytes:
         root = etree.fromstring(data)
     else:
         root = data
-    return etree.canonicalize(etree.tostring(root), with_comments=True).encode("utf-8")
+    return etree.canonicalize(xml_data=etree.tostring(root, encoding="unicode"), with_comments=True).encode("utf-8")
 
 
 def skeleton(data) -> list:
